@@ -21,7 +21,7 @@ RULE = (
 REQUIRED = [
     "family.build", "family.calculate", "family.scan", "family.pvalue", "family.rc", "family.load", "family.errors",
     "backend.generic", "backend.sse2", "backend.avx2", "backend.auto", "alphabet.protein", "reuse.increasing",
-    "reuse.decreasing", "pseudocount.dict", "background.nonuniform", "background.zero_entries", "base.non2",
+    "reuse.decreasing", "pseudocount.dict", "pseudocount.dict_with_wildcard_key", "background.wildcard_key", "background.nonuniform", "background.zero_entries", "base.non2",
     "pvalue.meme", "pvalue.tfmpvalue", "pvalue.rc_after_cached_distribution", "load.path", "load.bytesio",
     "load.short_reads", "load.jaspar", "load.jaspar16", "load.transfac", "load.uniprobe", "scan.hits>0",
 ]
@@ -123,6 +123,9 @@ def family_build(rep, case, rng):
         rep.cover("pseudocount.dict")
         keys = rng.sample(list(alphabet[: k - 1]), rng.randint(1, k - 1))
         d = {ch: rng.choice([0.0, 0.5, 1.0, 3.25]) for ch in keys}
+        if rng.random() < 0.4:
+            d[alphabet[k - 1]] = rng.choice([0.0, 0.5, 2.0])  # the wildcard symbol is a legal key
+            rep.cover("pseudocount.dict_with_wildcard_key")
         pseudo = [d.get(ch, 0.0) for ch in alphabet]
         arg = d
     wit = dict(wit, pseudocount=arg)
@@ -144,6 +147,13 @@ def family_build(rep, case, rng):
         else:
             zero = bmode == 2
             bgd = dyadic_background(rng, alphabet, zero_entries=zero)
+            if rng.random() < 0.3:
+                # move part of one frequency to the wildcard symbol (still sums to exactly one)
+                donor = max(bgd, key=lambda c: bgd[c])
+                if bgd[donor] > 2 / 256.0:
+                    bgd[donor] -= 1 / 256.0
+                    bgd[alphabet[k - 1]] = 1 / 256.0
+                    rep.cover("background.wildcard_key")
             bg = [bgd.get(ch, 0.0) for ch in alphabet]
             rep.cover("background.nonuniform")
             if zero:
